@@ -334,13 +334,66 @@ def dkep_norm_case():
                      "(np.isclose branch: within its own 1e-5 tolerance)")
 
 
+def kepcont_case():
+    """KeplerianContinuousMan: the thrust acceleration integrated over the duration of the burn is the delta-v of the same
+    element increments (here a pure da: tangential), whatever the duration -- fractions of a second, more than a day"""
+    ins = [("mu", "pos"), ("a", "pos"), ("da", "real"), ("dur", "pos")] + [(k, "real") for k in RV]
+
+    def pre(v):
+        return pre_h(v) + [v["da"] != 0]
+
+    def speed(env, v):
+        vel = _rv(v)[3:]
+        return _norm(env, vel)
+
+    def run(env, v):
+        man = env.mod("beyond.orbits.man") if env.symbolic else __import__("importlib").import_module("beyond.orbits.man")
+        if env.symbolic:
+            env.mod("beyond.frames.local")
+            vn = speed(env, v)
+
+            class Orb(np.ndarray):
+                def copy(self, form=None, frame=None):
+                    return self
+            o = np.empty(6, dtype=object)
+            o[:] = _rv(v)
+            o = o.view(Orb)
+            o.frame = _NS(); o.frame.center = _NS(); o.frame.center.body = _NS(); o.frame.center.body.mu = v["mu"]
+            o.infos = _NS(); o.infos.kep = _NS(); o.infos.kep.a, o.infos.kep.i = v["a"], 0; o.infos.v = vn
+            o.date = SymDate(0)
+            m = man.KeplerianContinuousMan(SymDate(0), SymTD(v["dur"]), da=v["da"])
+            acc = m.accel(o)
+            return {"dv_delivered": [acc[k] * v["dur"] for k in range(3)]}
+        from beyond.dates import Date
+        from beyond.orbits import StateVector
+        sc = lambda xs: [xs[0] * 1e6 + 7e6, xs[1] * 1e6, xs[2] * 1e6, xs[3] * 1e3, xs[4] * 1e3 + 7.5e3, xs[5] * 1e3]
+        o = StateVector(sc(_rv(v)), Date(2020, 1, 1), "cartesian", "EME2000")
+        dur = float(v["dur"])
+        m = man.KeplerianContinuousMan(o.date, _td(seconds=dur), da=float(v["da"]) * 1e3)
+        imp = man.KeplerianImpulsiveMan(o.date, da=float(v["da"]) * 1e3)
+        acc = np.array(m.accel(o))
+        return {"dv_delivered": list((acc * dur - np.array(imp.dv(o))) / max(1e-9, float(np.linalg.norm(imp.dv(o)))))}
+
+    def ref(env, v, out):
+        if not env.symbolic:
+            return {"dv_delivered": [0, 0, 0]}
+        vn = speed(env, v)
+        dva = v["mu"] * v["da"] / (2 * vn * v["a"] * v["a"])
+        t = [x / vn for x in _rv(v)[3:]]
+        return {"dv_delivered": [dva * t[k] for k in range(3)]}
+    return Case("kepler_continuous", ins, run, ref, pre=pre, timeout=120, maxpaths=64, tol=1e-9, abs_tol=1e-9,
+                extra_points=[{"dur": 30.5}, {"dur": 90000.0}, {"dur": 86400.0}],
+                desc="KeplerianContinuousMan(da): acceleration x duration = the tangential delta-v mu da/(2 v a^2) along the velocity, "
+                     "for any duration")
+
+
 def all_cases(tier):
     cs = [local_case("QSW"), local_case("TNW")]
     for fr in (None, "QSW", "TNW"):
         for kind in ("impulsive", "cont_dv", "cont_accel"):
             cs.append(man_case(fr, kind))
     cs += [window_case(p) for p in ("start", "median", "stop")]
-    cs += [tiling_case(bounds(tier)["tiles"]), makestep_case(), dkep_case(), dkep_norm_case()]
+    cs += [tiling_case(bounds(tier)["tiles"]), makestep_case(), dkep_case(), dkep_norm_case(), kepcont_case()]
     return cs
 
 
